@@ -36,8 +36,10 @@ func props() map[string]PropDef {
 		Rule: "control messages: (PType,SType) pairs (all 65,536 in thorough; a covering subset in quick) through NewHSMSControlMessage/Type/ToBytes and hsms.Parse; each constructor over session ids (all 65,536 in thorough), system bytes incl. short slices, all 256 status codes against right and wrong request kinds; raw headers of length 0..12; decode round trip of random headers with defined SType"})
 	add(PropDef{ID: "C18", Suites: func() []Suite { return suiteC18(nil) },
 		Rule: "messages (complete or not, 5% with an out-of-range field) x sequences of 1-3 (thorough 1-8) producer calls SetWaitBit / SetSessionIDAndSystemBytes with valid and rejected arguments; frame conditions checked on the real code before/after every step; every program also compared with the Lean model"})
-	add(PropDef{ID: "C12", Suites: func() []Suite { return suiteC12(nil) },
-		Rule: "factory calls with typed Go arguments: random argument lists over all accepted and unaccepted Go types; the full grid factory x width x Go integer type x boundary value; float32/float64 patterns incl. NaN, Inf, MaxFloat32 neighbours, subnormals; binary strings; every byte as a character and in a name; name grammar cases; list factory with items, names, ellipses, emptyItemNode; message constructors with 50% out-of-range fields; result (PANIC or printed/encoded values) compared with the Lean factories"})
+	add(PropDef{ID: "C12", Suites: func() []Suite {
+		return append(suiteC12(nil), Suite{Name: "ctor/fill-out-of-domain", Gen: fillOutOfDomain})
+	},
+		Rule: "factory calls with typed Go arguments: random argument lists over all accepted and unaccepted Go types; the full grid factory x width x Go integer type x boundary value; float32/float64 patterns incl. NaN, Inf, MaxFloat32 neighbours, subnormals; binary strings; every byte as a character and in a name; name grammar cases; list factory with items, names, ellipses, emptyItemNode; message constructors with 50% out-of-range fields; fills of every node kind dominated by out-of-domain and wrongly typed values (stored/refused exactly as the factory); result (PANIC or printed/encoded values) compared with the Lean factories"})
 	add(PropDef{ID: "C16", Suites: func() []Suite { return suiteC16(nil) },
 		Rule: "item templates with variables in any position (30% variable slots, ellipses, nested lists, ASCII variables) and messages around them; oracle on the real code: Variables() has no duplicate, equals the order of the names in String(), ToBytes non-empty iff no variables, Size = printed element count; Variables/Size also compared with the Lean model"})
 	registerMore(add)
